@@ -1,6 +1,21 @@
 """Repository-specific tables: which rules decide which clauses of which property."""
 
 PROPERTIES = {
+    "C01": {
+        "level": "other",
+        "rules": ["A1", "A2", "A3", "A4", "A5", "A6", "A7"],
+        "explanation": "static: coordinates",
+    },
+    "C09": {
+        "level": "other",
+        "rules": ["E1"],
+        "explanation": "static: nothing empty emitted",
+    },
+    "C07": {
+        "level": "other",
+        "rules": ["C1", "C2", "C3", "C4", "C5"],
+        "explanation": "static: deadline plumbing",
+    },
     "C08": {
         "level": "other",
         "rules": ["B1", "B2", "B3", "B4", "B5"],
